@@ -1,4 +1,5 @@
-CONSTANTS MaxPkgs = 2 NNames = 2 MaxMods = 2 TestDirs = FALSE NBases = 1 NSchemes = 1 Sim = FALSE
+CONSTANTS MaxPkgs = 2 NameIdx = {1, 2, 3} Palette = 3 MaxMods = 2 TestDirs = FALSE NBases = 1 NSchemes = 1
+          Entries = {"version", "path", "none"} Places = {"packages", "sibling", "nested"} Sim = FALSE
 SPECIFICATION Spec
-INVARIANTS TypeOK RootsDistinct RootOfIsInnermost ModuleNameInjective ResolveIsFunction ResolveIsVisible ImportsAcyclic DepsShape
+INVARIANTS TypeOK RootsDistinct ExternalIsPlace RootOfIsInnermost ModuleNameInjective ResolveIsFunction ResolveIsVisible ImportsAcyclic DepsShape
 CHECK_DEADLOCK FALSE
